@@ -236,7 +236,8 @@ def run(ctx):
             continue
         bad += 1
         explained = None
-        if dp['exp'] != p['exp'] and agrees(dp['exp'], r) and dp.get('cont') == p.get('cont'):
+        # (a syntax error under the deviation is at the instruction's line whatever follows it: the layout is immaterial)
+        if dp['exp'] != p['exp'] and agrees(dp['exp'], r) and (dp.get('cont') == p.get('cont') or dp['exp'] is None):
             explained = 'D3'
         if dp.get('opt') and not p.get('opt'):      # only with D3 is the first word the (unquoted) option
             explained = 'D3'
